@@ -50,10 +50,28 @@ func requestSeeds(rng *rand.Rand) [][]byte {
 	out = append(out, gen.BuildReq(rng, map[string]string{"extra": "some"}, []string{"chat, json"}, []string{"permessage-deflate; client_max_window_bits; server_max_window_bits=10", "foo; a=1; b=\"q q\""}).Bytes())
 	out = append(out, gen.BuildReq(rng, map[string]string{"eol": "lf", "connection": "list-middle"}, []string{"a", "b,c"}, []string{"permessage-deflate"}).Bytes())
 	out = append(out, gen.BuildReq(rng, map[string]string{"extra": "long-value", "upgrade": "case-value"}, nil, nil).Bytes())
+	// every single-factor derivation the handshake generator knows (valid and invalid forms of each header)
+	for _, f := range gen.ReqFactors {
+		for _, v := range gen.ReqVariants[f][1:] {
+			out = append(out, gen.BuildReq(rng, map[string]string{f: v}, []string{"chat"}, []string{"permessage-deflate; client_max_window_bits"}).Bytes())
+		}
+	}
 	return out
 }
 
 func responseSeeds() [][]byte {
+	out := responseSeedsFixed()
+	rng := rand.New(rand.NewSource(777))
+	for _, f := range gen.RespFactors {
+		for _, v := range gen.RespVariants[f][1:] {
+			r := gen.BuildResp(rng, map[string]string{f: v}, gen.ReqInfo{Key: "dGhlIHNhbXBsZSBub25jZQ==", Protocols: []string{"chat", "json"}})
+			out = append(out, append(r.Head(), 0x81, 0x02, 'h', 'i'))
+		}
+	}
+	return out
+}
+
+func responseSeedsFixed() [][]byte {
 	return [][]byte{
 		[]byte("HTTP/1.1 101 Switching Protocols\r\nUpgrade: websocket\r\nConnection: Upgrade\r\nSec-WebSocket-Extensions: permessage-deflate; client_max_window_bits=10, foo; a=1\r\nSec-WebSocket-Protocol: chat\r\nX-Other: 1\r\nSec-WebSocket-Accept: s3pPLMBiTxaQ9kYGzzhZRbK+xOo=\r\n\r\n\x81\x02hi"),
 		[]byte("HTTP/1.1 101 OK\nUpgrade: WebSocket\nConnection: upgrade\nSec-WebSocket-Protocol: json\nSec-WebSocket-Accept: s3pPLMBiTxaQ9kYGzzhZRbK+xOo=\n\n"),
@@ -104,7 +122,7 @@ func init() {
 
 // ----------------------------------------------------------------- mutator
 
-var tokens = [][]byte{[]byte("\r\n"), []byte("\n"), []byte(":"), []byte(","), []byte(";"), []byte("="), []byte("\""), {0}, {0xff}, []byte("permessage-deflate"), []byte("client_max_window_bits"), []byte(" "), []byte("\t"),
+var tokens = [][]byte{[]byte("\r\n"), []byte("\n"), []byte("\r"), []byte("=="), []byte("Sec-WebSocket-Key: "), []byte("dGhlIHNhbXBsZSBub25jZQ=="), []byte(":"), []byte(","), []byte(";"), []byte("="), []byte("\""), {0}, {0xff}, []byte("permessage-deflate"), []byte("client_max_window_bits"), []byte(" "), []byte("\t"),
 	[]byte("HTTP/1.1"), []byte("101"), []byte("Sec-WebSocket-Extensions: "), []byte("Sec-WebSocket-Protocol: "), []byte("\r\n\r\n"), {0x81, 0x7e}, {0x88, 0x7f}, {0x80, 0x00}}
 
 var extremeLens = []uint64{1<<31 - 1, 1 << 31, 1 << 32, 1 << 40, 1 << 47, 1 << 48, 1 << 62, 1<<63 - 1, 1 << 63, 1<<64 - 1, 65536, 126}
